@@ -10,6 +10,7 @@ require (
 )
 
 require (
+	github.com/pkg/errors v0.9.1 // indirect
 	golang.org/x/mod v0.19.0 // indirect
 	golang.org/x/sync v0.7.0 // indirect
 )
